@@ -792,7 +792,12 @@ func (s *IndexedState) FindCachedRules(ctx *Context, event Map) (map[string]*Rul
 		} else {
 			rule, err := RuleFromMap(ctx, r)
 			if err != nil {
-				return nil, err
+				// Not a rule after all (say a fact with an
+				// ill-typed "rule" property): it cannot fire,
+				// and it should not keep the other rules
+				// from firing.
+				Log(ERROR, ctx, "IndexedState.FindCachedRules", "state", s.Name, "id", id, "error", err)
+				continue
 			}
 			// The id is set before the rule is shared through the cache.
 			rule.Id = id
